@@ -28,9 +28,17 @@ static uint32_t galloc(uint32_t n, uint32_t align = 1) {
     X->regions.push_back({p, n});
     return p;
 }
+// Guest memory accessors of the harness. In the forced big-endian build (SIMWASI_BE) the runtime's accessors byte-reverse every
+// 16/32/64-bit access on this little-endian host, so the harness does the same: it then sees exactly the values a guest would.
+#ifdef SIMWASI_BE
+static uint32_t ld32(uint32_t a) { uint32_t v; memcpy(&v, X->mem + a, 4); return __builtin_bswap32(v); }
+static uint64_t ld64(uint32_t a) { uint64_t v; memcpy(&v, X->mem + a, 8); return __builtin_bswap64(v); }
+static void st32(uint32_t a, uint32_t v) { v = __builtin_bswap32(v); memcpy(X->mem + a, &v, 4); }
+#else
 static uint32_t ld32(uint32_t a) { uint32_t v; memcpy(&v, X->mem + a, 4); return v; }
 static uint64_t ld64(uint32_t a) { uint64_t v; memcpy(&v, X->mem + a, 8); return v; }
 static void st32(uint32_t a, uint32_t v) { memcpy(X->mem + a, &v, 4); }
+#endif
 static uint32_t gput(const std::string& s, bool nul_after = false) {
     uint32_t p = galloc((uint32_t)s.size() + 4);
     memcpy(X->mem + p, s.data(), s.size());
@@ -486,7 +494,11 @@ static void op_path_generic(const Op& op) {
 
 // ---- fd_readdir listing protocol
 struct DirEnt { uint64_t next, ino; uint32_t namlen; uint8_t type; std::string name; };
+static std::string hexs(unsigned v) { char b[16]; snprintf(b, sizeof b, "0x%02x", v); return b; }
+// bytes of the last call's buffer behind its last complete entry (a truncated entry may have been written there)
+static std::vector<uint8_t> g_readdir_tail;
 static bool readdir_call(const Op& op, int64_t fd, uint32_t buflen, uint64_t cookie, std::vector<DirEnt>& out, uint32_t* used, uint32_t* err, bool* truncated) {
+    g_readdir_tail.clear();
     uint32_t bp = galloc(buflen + 8, 8), up = galloc(4, 4); memset(X->mem + bp, 0x44, buflen + 8); st32(up, 0xDEADBEEF);
     uint32_t r = (uint32_t)wcall(op, "fd_readdir", {(uint64_t)fd, bp, buflen, cookie, up});
     *err = r; *truncated = false;
@@ -502,14 +514,37 @@ static bool readdir_call(const Op& op, int64_t fd, uint32_t buflen, uint64_t coo
         out.push_back(e); p += 24 + e.namlen;
     }
     if (p < u && !*truncated) *truncated = true;   // partial header
+    if (u == buflen && p < buflen) g_readdir_tail.assign(X->mem + bp + p, X->mem + bp + buflen);
     return true;
+}
+// A truncated trailing entry is allowed, but what was written of it must be the beginning of the entry that comes next, in the same
+// layout as complete entries (fields through the memory accessors of their width); untouched bytes still hold the fill pattern.
+static void check_readdir_tail(const std::vector<uint8_t>& tail, const DirEnt& nxt) {
+    if (tail.empty()) return;
+    std::vector<uint8_t> img(24 + nxt.name.size(), 0); std::vector<bool> care(img.size(), true);
+    auto put = [&](size_t off, uint64_t v, int w) {
+#ifdef SIMWASI_BE
+        for (int i = 0; i < w; i++) img[off + (size_t)i] = (uint8_t)(v >> (8 * (w - 1 - i)));
+#else
+        for (int i = 0; i < w; i++) img[off + (size_t)i] = (uint8_t)(v >> (8 * i));
+#endif
+    };
+    put(0, nxt.next, 8); put(8, nxt.ino, 8); put(16, nxt.namlen, 4); img[20] = (uint8_t)nxt.type; care[21] = care[22] = care[23] = false;
+    memcpy(img.data() + 24, nxt.name.data(), nxt.name.size());
+    for (size_t i = 0; i < tail.size() && i < img.size(); i++) {
+        if (!care[i] || tail[i] == 0x44 || tail[i] == img[i]) continue;
+        V("readdir", "fd_readdir:truncated-entry-bytes", "byte " + std::to_string(i) + " of the truncated trailing entry is " + hexs(tail[i]) + ", the entry that follows ('" + nxt.name.substr(0, 30) + "') has " + hexs(img[i]) + " there");
+        return;
+    }
 }
 static bool list_dir(const Op& op, int64_t fd, uint32_t buflen, uint64_t start_cookie, std::vector<DirEnt>& all, std::string* abort_reason) {
     uint64_t cookie = start_cookie; int guard = 0;
     while (guard++ < 400) {
         std::vector<DirEnt> got; uint32_t used = 0, err = 0; bool trunc = false;
         g_reset();
+        std::vector<uint8_t> prev_tail = g_readdir_tail;
         if (!readdir_call(op, fd, buflen, cookie, got, &used, &err, &trunc)) { *abort_reason = "error " + std::to_string(err); return false; }
+        if (guard > 1 && !got.empty()) check_readdir_tail(prev_tail, got[0]);
         for (auto& e : got) all.push_back(e);
         if (!got.empty()) cookie = got.back().next;
         if (used < buflen) return true;                      // listing complete
